@@ -1163,7 +1163,7 @@ class TableDescription(ViewRepresentation):
     def __eq__(self, other):
         if not isinstance(other, TableDescription):
             return False
-        return self.key.__eq__(other.key)
+        return self._equiv_nodes(other)
 
     def __hash__(self):
         return self.key.__hash__()
